@@ -261,8 +261,12 @@ pub fn run(ctx: &Ctx) -> Report {
                 let cr = *r.pick(&["ELECTRICIDAD", "EAMBIENTE", "GASNATURAL", "BIOMASA", "RED1", "TERMOSOLAR"]);
                 let kept: Vec<&str> = text.lines().filter(|l| !(l.trim_start().starts_with(cr) && l.contains("RED") && l.contains("SUMINISTRO"))).collect();
                 text = kept.join("\n");
-                if r.chance(1, 2) {
-                    text.push_str(&format!("\n{cr}, INSITU, A_RED, A, 0.5, 0.5, 0.1\n"));
+                match r.below(4) {
+                    0 => text.push_str(&format!("\n{cr}, INSITU, A_RED, A, 0.5, 0.5, 0.1\n")),
+                    // a supply factor of another source does not make the carrier usable
+                    1 => text.push_str(&format!("\n{cr}, INSITU, SUMINISTRO, A, 0.5, 0.5, 0.1\n")),
+                    2 => text.push_str(&format!("\n{cr}, COGEN, SUMINISTRO, A, 0.4, 0.6, 0.1\n{cr}, RED, SUMINISTRO, B, 0.4, 0.6, 0.1\n")),
+                    _ => {}
                 }
                 t.count("generated.grid_factor_removed");
             }
